@@ -257,6 +257,66 @@ pub fn gen(out: &mut dyn Write, seed: u64, thorough: bool) {
             writeln!(out, "P first {} {} => {}", fmt_idx(l), n, ans).unwrap();
         }
     }
+    // the symbol list survives every other builder setter, in every call order: all 24 orders of the four
+    // setters (list, modes = ASCII only, macros, FNC1 start), with and without a decoy value set first
+    {
+        let mut n_orders = 0usize;
+        for (li, l) in probe_lists.iter().enumerate() {
+            if l.is_empty() || li % 3 != 0 && !thorough {
+                continue;
+            }
+            let sl = wl(l);
+            let maxcw = l.iter().map(|i| vh::size_info(sizes[*i]).num_data_codewords).max().unwrap();
+            for perm in 0..24usize {
+                let n = [1usize, 3, 9, 20, maxcw / 2, maxcw.saturating_sub(1), maxcw][(perm + li) % 7].min(maxcw);
+                let fnc1 = perm % 5 == 2;
+                let macros = perm % 2 == 0;
+                let decoy = perm % 3 != 1;
+                let data = vec![b'a'; n];
+                let sl2 = sl.clone();
+                let r = guarded(move || {
+                    let mut order = [0usize, 1, 2, 3];
+                    let mut k = perm;
+                    for i in 0..3 {
+                        let j = i + k % (4 - i);
+                        k /= 4 - i;
+                        order.swap(i, j);
+                    }
+                    let mut b = DataMatrixBuilder::new();
+                    for o in order {
+                        b = match o {
+                            0 => {
+                                if decoy { b = b.with_symbol_list(SymbolList::default()); }
+                                b.with_symbol_list(sl2.clone())
+                            }
+                            1 => {
+                                if decoy { b = b.with_encodation_types(EncodationType::all()); }
+                                b.with_encodation_types(EncodationType::Ascii)
+                            }
+                            2 => {
+                                if decoy { b = b.with_macros(!macros); }
+                                b.with_macros(macros)
+                            }
+                            _ => {
+                                if decoy { b = b.with_fnc1_start(!fnc1); }
+                                b.with_fnc1_start(fnc1)
+                            }
+                        };
+                    }
+                    b.encode(&data)
+                });
+                let ans = match r {
+                    Ok(Ok(dm)) => size_index(dm.size).to_string(),
+                    Ok(Err(_)) => "none".into(),
+                    Err(_) => "panic".into(),
+                };
+                n_orders += 1;
+                // n ASCII codewords, one more for the FNC1 codeword
+                writeln!(out, "P first {} {} => {}", fmt_idx(l), n + fnc1 as usize, ans).unwrap();
+            }
+        }
+        writeln!(out, "# builder_setter_orders {}", n_orders).unwrap();
+    }
     // the builder's own default list (no `with_symbol_list`): must behave as the standard's 30 sizes
     {
         // (that `SymbolList::default()` is exactly the 30 sizes of ISO/IEC 16022 is checked above and proved in C12)
